@@ -278,6 +278,9 @@ def evaluate(vec, r, props, style=0, morph_from=None, huge=False, chan_zero=None
         for p in ("C01", "C02", "C06"):
             if p in props:
                 out.append((f"{p}:decode_failed", f"layout-conformant bytes are not decoded: {type(x).__name__}: {x}"))
+        if "C05" in props and any(t.get("g") == "rle" for t in toks):
+            # a run-length coded block the library wrote and cannot read back: its gaps did not survive storage
+            out.append(("C05:decode_failed", f"a block with run-length coded gaps is not decoded: {type(x).__name__}: {x}"))
         return out
     if "C02" in props:
         if pos != len(enc):
